@@ -467,6 +467,8 @@ def parent_main(prop, tier, seed, replay=None, shards=None):
             path = os.path.join(rdir, name)
             if not name.endswith(".json") or name.startswith("found_") or path in known_examples:
                 continue
+            if name.startswith("mutant_") and os.environ.get("VERIF_SKIP_MUTANT_REPLAYS"):
+                continue  # tools_seed.py: judge the campaign alone, not replays derived from similar breakages
             n_replays += 1
             rec, v = replay_file(module, path)
             if v is not None:
